@@ -1,3 +1,4 @@
 import Driver.Proto
 import Driver.OpsTime
+import Driver.OpsBattery
 import Driver.Main
